@@ -295,7 +295,7 @@ func c04CheckAttr(r *vr.Report, ab bgpgen.AttrBuilder, o bgpgen.OptSet) bool {
 		r.Outcome("attr:" + ab.Kind + ":skipped(carried NLRI has its own violation)")
 		return false
 	}
-	if c04CheckAttrValue(r, cs, ab.Name, ab.Build(), o) {
+	if c04CheckAttrValue(r, cs, ab.Name, ab.Build(), o, true) {
 		r.NT("attr:" + ab.Name + "|" + o.Name)
 		r.Outcome("attr:" + ab.Kind + ":ok")
 		return true
@@ -318,7 +318,7 @@ func c04NLRIsSound(r *vr.Report, a bgp.PathAttributeInterface) bool {
 	}
 	scratch := r.Fork()
 	for _, n := range l {
-		if !c04CheckNLRIValue(scratch, c04Case{}, fam, "-", n.NLRI) {
+		if !c04CheckNLRIValue(scratch, c04Case{}, fam, "-", n.NLRI, false) {
 			return false
 		}
 	}
@@ -372,7 +372,9 @@ func c04LenCauses(a bgp.PathAttributeInterface, o bgpgen.OptSet, l0, emitted int
 	return out
 }
 
-func c04CheckAttrValue(r *vr.Report, cs c04Case, name string, a bgp.PathAttributeInterface, o bgpgen.OptSet) bool {
+// lenClause=false leaves out the Len()-of-the-constructed-value clause (used when deciding whether a
+// message is worth checking: a wrong cached length does not stop the round trip).
+func c04CheckAttrValue(r *vr.Report, cs c04Case, name string, a bgp.PathAttributeInterface, o bgpgen.OptSet, lenClause bool) bool {
 	ab := struct{ Name string }{name}
 	tn := c04AttrTypeName(a)
 	var b []byte
@@ -388,7 +390,7 @@ func c04CheckAttrValue(r *vr.Report, cs c04Case, name string, a bgp.PathAttribut
 	}
 	cs.Hex = c04Hex(b)
 	ok := true
-	if l0 != len(b) {
+	if lenClause && l0 != len(b) {
 		ok = false
 		for _, cause := range c04LenCauses(a, o, l0, len(b)) {
 			r.Violationf("C04:Len!=emitted:constructed:"+tn+cause, cs, "attribute %s [%s]: constructed value reports Len()=%d, Serialize() emits %d bytes", ab.Name, o.Name, l0, len(b))
@@ -468,7 +470,7 @@ func c04CheckNLRI(r *vr.Report, fam bgp.Family, idx int, name string) bool {
 	r.Eval()
 	cs := c04Case{Part: "nlri", Name: name, Fam: fam.String()}
 	n := bgpgen.NLRIs(fam)[idx].NLRI
-	if c04CheckNLRIValue(r, cs, fam, name, n) {
+	if c04CheckNLRIValue(r, cs, fam, name, n, true) {
 		r.NT("nlri:" + name)
 		r.Outcome("nlri:" + fam.String() + ":ok")
 		return true
@@ -517,7 +519,7 @@ func (x c04Rep) V(clause, extra string, cs c04Case, format string, a ...any) {
 	x.r.Violationf(key, cs, format, a...)
 }
 
-func c04CheckNLRIValue(r *vr.Report, cs c04Case, fam bgp.Family, name string, n bgp.NLRI) bool {
+func c04CheckNLRIValue(r *vr.Report, cs c04Case, fam bgp.Family, name string, n bgp.NLRI, lenClause bool) bool {
 	tn := c04TypeName(n)
 	shape := ""
 	c04Try(func() { shape = c04Shape(n) })
@@ -535,7 +537,7 @@ func c04CheckNLRIValue(r *vr.Report, cs c04Case, fam bgp.Family, name string, n 
 	}
 	cs.Hex = c04Hex(b)
 	ok := true
-	if l0 != len(b) {
+	if lenClause && l0 != len(b) {
 		ok = false
 		rep.V("Len!=emitted:constructed", "", cs, "NLRI %s: constructed value reports Len()=%d, Serialize() emits %d bytes %s", name, l0, len(b), c04Hex(b))
 	}
@@ -653,6 +655,7 @@ func c04CheckMsg(r *vr.Report, mb bgpgen.MsgBuilder, o bgpgen.OptSet) bool {
 	case *bgp.BGPUpdate:
 		orig := m.Body.(*bgp.BGPUpdate)
 		u := ref.Update
+		lenOK := true
 		if len(u.Attrs) != len(body.PathAttributes) {
 			r.Violationf("C04:boundaries:attr-count", cs, "message %s [%s]: reader sees %d attributes, gobgp %d", mb.Name, o.Name, len(u.Attrs), len(body.PathAttributes))
 			return false
@@ -664,8 +667,12 @@ func c04CheckMsg(r *vr.Report, mb bgpgen.MsgBuilder, o bgpgen.OptSet) bool {
 				return false
 			}
 			if i < len(orig.PathAttributes) && orig.PathAttributes[i].Len(o.Opts...) != ra.Total() {
-				r.Violationf("C04:Len!=emitted:constructed:"+c04AttrTypeName(orig.PathAttributes[i]), cs, "message %s [%s]: attribute #%d of the constructed message reports Len()=%d but occupies %d bytes on the wire", mb.Name, o.Name, i, orig.PathAttributes[i].Len(o.Opts...), ra.Total())
-				return false
+				// same keys as the elements part: one root cause, one key
+				oa := orig.PathAttributes[i]
+				for _, cause := range c04LenCauses(oa, o, oa.Len(o.Opts...), ra.Total()) {
+					r.Violationf("C04:Len!=emitted:constructed:"+c04AttrTypeName(oa)+cause, cs, "message %s [%s]: attribute #%d of the constructed message reports Len()=%d but occupies %d bytes on the wire", mb.Name, o.Name, i, oa.Len(o.Opts...), ra.Total())
+				}
+				lenOK = false
 			}
 		}
 		if !c04SamePrefixes(r, cs, "nlri", u.NLRI, body.NLRI, o.AddPathV4) || !c04SamePrefixes(r, cs, "withdrawn", u.Withdrawn, body.WithdrawnRoutes, o.AddPathV4) {
@@ -687,6 +694,9 @@ func c04CheckMsg(r *vr.Report, mb bgpgen.MsgBuilder, o bgpgen.OptSet) bool {
 			if mr.Parsed {
 				r.Outcome("msg:boundaries:mp-reach-prefixes-compared")
 			}
+		}
+		if !lenOK {
+			return false
 		}
 		for _, mr := range u.MPUnreach {
 			pa, _ := body.PathAttributes[mr.Attr].(*bgp.PathAttributeMpUnreachNLRI)
@@ -761,7 +771,7 @@ func c04ElementsSound(r *vr.Report, m *bgp.BGPMessage, o bgpgen.OptSet) bool {
 		}
 		// (the NLRI objects were serialised by the scratch check; attribute-level clauses on the same objects)
 		for _, a := range body.PathAttributes {
-			if !c04CheckAttrValue(scratch, c04Case{}, "-", a, o) {
+			if !c04CheckAttrValue(scratch, c04Case{}, "-", a, o, false) {
 				return false
 			}
 		}
